@@ -11,6 +11,9 @@
 import MptModel.Impl.Message
 import MptModel.Spec.Flat
 import MptModel.Lemmas.Message
+import MptModel.Lemmas.MessageCpy
+import MptModel.Lemmas.MessageArgv
+import MptModel.Lemmas.MessageGet
 namespace Mpt.C17
 open Mpt Mpt.Flat
 
@@ -68,5 +71,101 @@ example : Iov.memtok [[39, 97], [32, 98, 39], [], [32]] wsTok = some 5 := by dec
 theorem append_flat (arr : List Byte) (m : Msg) : m.append arr = Flat.append arr m.flat :=
   append_eq arr m
 example : (Msg.mk [1] [[], [2, 3]]).append [9] = [9, 1, 2, 3] := by decide
+
+/-- `mpt_memcpy` between two fragment lists (at least one fragment each): return value, the target
+    bytes afterwards, and every target fragment keeps its size.  All lengths, also negative
+    ("as much as fits"). -/
+theorem cpy_flat (len : Int) (src dst : List Frag) (hs : src ≠ []) (hd : dst ≠ []) :
+    (Iov.memcpy len src dst).ret = (Flat.cpy len src.flatten dst.flatten).1 ∧
+    (Iov.memcpy len src dst).dst.flatten = (Flat.cpy len src.flatten dst.flatten).2 ∧
+    (Iov.memcpy len src dst).dst.map List.length = dst.map List.length :=
+  memcpy_eq len src dst hs hd
+example : (Iov.memcpy 3 [[1], [], [2, 3, 4]] [[0, 0], [], [0, 0]]).dst = [[1, 2], [], [3, 0]] := by decide
+
+/-- the excluded corner of `cpy_flat`: with no source or no target fragment at all the function
+    returns 0 for every length (a contiguous empty area refuses a positive length with −1/−2) -/
+theorem cpy_nofrag (len : Int) (src dst : List Frag) (h : src = [] ∨ dst = []) :
+    Iov.memcpy len src dst = ⟨0, dst⟩ :=
+  memcpy_nofrag len src dst h
+
+/-- `mpt_message_argv` agrees with the contiguous computation: same return value (argument length
+    or MissingData) and the same content left after the white-space removal -/
+def ArgvAgrees (m : Msg) (sep : Byte) : Prop :=
+  match Flat.argv m.flat sep with
+  | none => (m.argv sep).2 = .err .MissingData ∧ (m.argv sep).1.flat = m.flat
+  | some (n, d') => (m.argv sep).2 = .ok n ∧ (m.argv sep).1.flat = d'
+
+/-- full statement for `mpt_message_argv` — NOT a theorem: see `argv_counterexample` -/
+def argv_flat_statement : Prop := ∀ (m : Msg) (sep : Byte), ArgvAgrees m sep
+
+/-- proved for every cursor and separator outside the keyed region of the known finding
+    `quote-open-at-base-end` (`Msg.quoteSplit`: white-space separator, the quote scanner reaches the end
+    of the base fragment inside a quote or behind a backslash, and bytes follow in the continuation).
+    In particular: every separator that is 0 or a visible character, and every fragment list whose
+    base fragment closes its quotes. -/
+theorem argv_flat_partial (m : Msg) (sep : Byte) (h : m.quoteSplit sep = false) : ArgvAgrees m sep :=
+  argv_eq m sep h
+example : (Msg.mk [32] [[], [32, 97], [98, 32, 99]]).quoteSplit 32 = false ∧
+    ((Msg.mk [32] [[], [32, 97], [98, 32, 99]]).argv 32).2 = .ok 2 := by decide
+
+/-- the region is not empty and the code really differs there: 'a | b' (quoted, cut after `a`) -/
+theorem argv_counterexample : ¬ argv_flat_statement := by
+  intro h
+  have h1 := h ⟨[39, 97], [[32, 98, 39]]⟩ 32
+  have hs : Flat.argv (Msg.mk [39, 97] [[32, 98, 39]]).flat 32 = some (5, [39, 97, 32, 98, 39]) := by decide
+  have hm : ((Msg.mk [39, 97] [[32, 98, 39]]).argv 32).2 = .ok 2 := by decide
+  unfold ArgvAgrees at h1
+  rw [hs] at h1
+  simp only [] at h1
+  rw [hm] at h1
+  exact absurd h1.1 (by decide)
+
+/-- `mpt_array_message` agrees with the contiguous computation (number of arguments, array content) -/
+def ArgsAgrees (m : Msg) (sep : Byte) : Prop :=
+  m.arrayMessage sep = match Flat.args m.flat sep with
+    | some r => .ok r
+    | none => .fault
+
+/-- full statement for `mpt_array_message` — NOT a theorem: see `args_counterexample` -/
+def args_flat_statement : Prop := ∀ (m : Msg) (sep : Byte), ArgsAgrees m sep
+
+/-- proved whenever no `mpt_message_argv` call of the loop falls into the keyed region -/
+theorem args_flat_partial (m : Msg) (sep : Byte) (h : Msg.argsSplit sep (m.length + 1) m = false) :
+    ArgsAgrees m sep :=
+  arrayMessage_eq m sep h
+example : Msg.argsSplit 32 6 ⟨[97, 32], [[], [98, 99], [32]]⟩ = false ∧
+    (Msg.mk [97, 32] [[], [98, 99], [32]]).arrayMessage 32 = .ok (2, [97, 0, 98, 99, 0]) := by decide
+
+theorem args_counterexample : ¬ args_flat_statement := by
+  intro h
+  have h1 := h ⟨[39, 97], [[32, 98, 39]]⟩ 32
+  have hs : Flat.args (Msg.mk [39, 97] [[32, 98, 39]]).flat 32 = some (1, [39, 97, 32, 98, 39, 0]) := by decide
+  have hm : (Msg.mk [39, 97] [[32, 98, 39]]).arrayMessage 32 = .ok (2, [39, 97, 0, 98, 39, 0]) := by decide
+  unfold ArgsAgrees at h1
+  rw [hs, hm] at h1
+  exact absurd h1 (by decide)
+
+/-- the contiguous argument loop never runs out of its fuel (so `.fault` above cannot occur) -/
+theorem args_spec_total (d : List Byte) (sep : Byte) : (Flat.args d sep).isSome = true :=
+  args_total d sep
+
+/-- `mpt_message_get` on a queue (`len ≤ max`, `off ≤ max`): when the requested stretch lies inside the
+    data, the message — one fragment, or two when the data wraps — denotes exactly those bytes of the
+    queue's logical content -/
+theorem get_flat (r : Ring) (h : r.len ≤ r.store.length ∧ r.off ≤ r.store.length) (pos take : Nat)
+    (hle : pos + take ≤ r.len) :
+    ∃ m, Msg.get r pos take = .ok m ∧ some m.flat = Flat.get r.content pos take := by
+  obtain ⟨m, h1, h2⟩ := get_ok r h pos take hle
+  refine ⟨m, h1, ?_⟩
+  have hlen : r.content.length = r.len := by
+    obtain ⟨a, b⟩ := h
+    simp [Ring.content]; omega
+  simp [Flat.get, hlen, hle, h2]
+example : (Msg.get (Ring.make 4 3 [1, 2, 3]) 0 3) = .ok ⟨[1], [[2, 3]]⟩ := by decide
+
+/-- … and refused otherwise -/
+theorem get_refused (r : Ring) (pos take : Nat) (hgt : r.len < pos + take) :
+    ∃ e, Msg.get r pos take = .err e :=
+  Mpt.get_refused r pos take hgt
 
 end Mpt.C17
